@@ -269,6 +269,38 @@ theorem dispatch_eq (w : World) (t : HTag) (ev' : EvQ) (hex : executeNext w.ev =
   simp only [hex]
   rfl
 
+/-- consuming a process-end wake-up: the woken process stops awaiting -/
+theorem winv_pop_proc {w : World} (h : WInv w) (t : HTag) (ev' : EvQ) (hex : executeNext w.ev = some (t, ev'))
+    (ha : t.item.a = aProc) : WInv (removeAwaitKind (afterPop w t ev') (t.item.b - 1) isProcA).1 := by
+  obtain ⟨h1, hpa1, hwt1, hproc⟩ := winv_afterPop h t ev' hex
+  obtain ⟨hnp0, hnpw⟩ := hproc ha
+  obtain ⟨hne, hout⟩ := h.woken _ hnpw
+  have hpaq : ∃ q, (afterPop w t ev').pa (t.item.b - 1) = [q] := by
+    rcases h.frame (t.item.b - 1) with e | ⟨q, e, _⟩
+    · exact absurd e hne
+    · exact ⟨q, by rw [hpa1]; exact e⟩
+  obtain ⟨q, hq⟩ := hpaq
+  refine h1.unregister (t.item.b - 1) q hq ?_ ?_ ?_ ?_ ?_ ?_ ?_
+  · intro z; rw [removeAwaitKind_pa_proc]
+    split
+    · rename_i e; subst e; rw [hq]; rfl
+    · rfl
+  · intro z; rw [removeAwaitKind_waiters]; exact List.Sublist.refl _
+  · rw [removeAwaitKind_waiters, hwt1]; exact hout q
+  · intro z _; rw [removeAwaitKind_blocked]
+  · intro z; exact Nat.le_of_eq (cnt_of_ev (by simp))
+  · rw [show np (removeAwaitKind (afterPop w t ev') (t.item.b - 1) isProcA).1 (t.item.b - 1)
+        = np (afterPop w t ev') (t.item.b - 1) from cnt_of_ev (by simp)]
+    exact hnp0
+  · intro e he
+    rw [show (removeAwaitKind (afterPop w t ev') (t.item.b - 1) isProcA).1.ev = (afterPop w t ev').ev by simp] at he
+    exact h1.subj e he
+
+theorem winv_removeAwaitKind_other {w : World} (h : WInv w) (p : Pid) (k : Await → Bool)
+    (hk : ∀ q, k (.proc q) = false) : WInv (removeAwaitKind w p k).1 :=
+  h.of_views' (fun z => removeAwaitKind_pa_other _ _ _ hk z) (fun q => by simp)
+    (fun z _ => by simp) ((wev_closed _).ev_only h.wev (by simp))
+
 /-- **every dispatched event keeps the registration invariant** -/
 theorem winv_dispatch {w w' : World} (h : WInv w) (hdr : DeadRec w) (hd : dispatch w = some w') : WInv w' := by
   cases hex : executeNext w.ev with
